@@ -333,6 +333,45 @@ def m_vec_index(ex, callee, args, ret_ty, frame):
     return VRef(r.root, r.path + (("i", c),), r.mut)
 
 
+def concrete_len(ex, seq, what):
+    """decide the length of a sequence (forks over the bounded possibilities when symbolic)"""
+    if isinstance(seq.length, int):
+        return seq.length
+    bound = ex.cfg.get("seq_bound", 3) + 3
+    k = ex.branch([(str(j), seq.length == j) for j in range(bound + 1)], what + ".len")
+    return k
+
+
+def m_slice_ends(ex, callee, args, ret_ty, frame):
+    """<[T]>::{first, last, split_first, split_last, get}"""
+    r = args[0]
+    seq = deref(ex, r)
+    if not isinstance(seq, VSeq) or not isinstance(r, VRef):
+        return NOT_HANDLED
+    which = re.search(r"::(first|last|split_first|split_last|get)(::<.*>)?$", callee).group(1)
+    rt = norm_ty(ret_ty) if ret_ty else "Option"
+    n = concrete_len(ex, seq, which)
+    if which == "get":
+        i = args[1].concrete() if isinstance(args[1], VInt) else None
+        if i is None:
+            i = ex.concretize_index(args[1], seq)
+        if i >= n:
+            return mk_option(ex, rt)
+        ex.seq_item(seq, i)
+        return mk_option(ex, rt, VRef(r.root, r.path + (("i", i),), False))
+    if n == 0:
+        return mk_option(ex, rt)
+    for j in range(n):
+        ex.seq_item(seq, j)
+    at = 0 if which in ("first", "split_first") else n - 1
+    elem = VRef(r.root, r.path + (("i", at),), False)
+    if which in ("first", "last"):
+        return mk_option(ex, rt, elem)
+    rest_items = seq.items[1:] if which == "split_first" else seq.items[:n - 1]
+    rest = VSeq(seq.elem_ty, n - 1, [vcopy(x) for x in rest_items], ex.new_vid())
+    return mk_option(ex, rt, VTuple([elem, VRef(ex.heap(rest, "subslice"), (), False)]))
+
+
 def m_vec_from_array(ex, callee, args, ret_ty, frame):
     # <[T]>::into_vec(Box<[T; N]>) / vec! macro lowering / Vec::from
     v = deref(ex, args[0])
@@ -482,6 +521,7 @@ BUILTIN = [
     (r"^<impl \[.*\]>::iter$", m_slice_iter),
     (r"^Vec(::)?(<.*>)?::iter$", m_slice_iter),
     (r"^<impl \[.*\]>::reverse$", m_slice_reverse),
+    (r"^<impl \[.*\]>::(first|last|split_first|split_last|get)(::<.*>)?$", m_slice_ends),
     (r"^<impl \[.*\]>::into_vec", m_vec_from_array),
     (r"^<.+ as IntoIterator>::into_iter$", m_into_iter),
     (r"^<(IntoIter|Iter|Range|Rev)<.*> as Iterator>::next$", m_iter_next),
